@@ -12,34 +12,41 @@
    changed.  After the wrap
      (1) the peer (expectedEpoch 65280) discards everything the victim sends:
          the two sides can no longer exchange data, and
-     (2) the victim re-uses (epoch, sequence number) pairs it already used
-         with the same key.  With AES-GCM the nonce is salt||epoch||seq
-         (cipherSuite.c), so this is nonce re-use: the XOR of two
-         ciphertexts equals the XOR of the two plaintexts.
+     (2) the victim re-uses (epoch, sequence number) pairs with the same key.
+         With AES-GCM the nonce is salt||epoch||seq (cipherSuite.c), so this
+         is nonce re-use: the XOR of two ciphertexts equals the XOR of the
+         two plaintexts.
 
    The network never forges anything: it only re-delivers ONE datagram the
-   server really sent (its ServerHello flight) again and again. */
-#include "common.h"
+   peer really sent during the handshake, again and again.
 
-int main(int argc, char **argv)
+   Scenario 0: victim = client (one-way protocol client -> server), replayed
+               datagram = the server's ServerHello flight.
+   Scenario 1: victim = server (one-way protocol server -> client), replayed
+               datagram = the client's ClientKeyExchange/CCS/Finished flight.
+               (The server is the side whose flight is the last one of a
+               full handshake: it has to answer a client that retransmits,
+               so this reaction cannot simply be switched off.) */
+#include "common.h"
+#include <unistd.h>
+#include <sys/wait.h>
+
+#define MAXREPLAY 70000
+
+static int scenario(int victimIsServer)
 {
-    ep_t C, S;
+    ep_t C, S, *V, *P;
     sslKeys_t *ck, *sk;
     sslSessionId_t *sid;
     uint16_t suite = 0x009C; /* TLS_RSA_WITH_AES_128_GCM_SHA256 */
     uint32 ver = SSL_FLAGS_TLS_1_2 | SSL_FLAGS_DTLS;
-    int ids[64], n, i, rounds, replays = 0, oldFlight = -1, bad = 0;
+    int ids[64], n, i, rounds, replays = 0, old = -1, bad = 0, resends = 0;
     const char *m1 = "first  secret: attack at dawn!!";
     const char *m2 = "second secret: retreat at dusk.";
     const char *m3 = "third  secret: the key is 1234.";
-    dgram_t *d1, *d2;
-    int epoch;
+    dgram_t *d2, *d3;
+    int epoch, prevEpoch, wrappedAt = -1;
 
-    if (argc > 1 && !strcmp(argv[1], "-v"))
-    {
-        g_verbose = 1;
-    }
-    setvbuf(stdout, NULL, _IONBF, 0);
     matrixSslOpen();
     matrixDtlsSetPmtu(1400);
     ck = load_keys(suite, 0);
@@ -47,6 +54,8 @@ int main(int argc, char **argv)
     matrixSslNewSessionId(&sid, NULL);
     new_server(&S, sk, ver, 0);
     new_client(&C, ck, ver, suite, sid, 0);
+    V = victimIsServer ? &S : &C;
+    P = victimIsServer ? &C : &S;
 
     /* loss-free handshake */
     n = ep_flush(&C, ids, 64);
@@ -60,125 +69,187 @@ int main(int argc, char **argv)
         printf("handshake failed\n");
         return 2;
     }
-    /* find the server's ServerHello flight among the datagrams sent */
+    /* the old (epoch 0) datagram of the peer that will be replayed */
     for (i = 0; i < g_nall; i++)
     {
-        if (g_all[i].from == 1 && g_all[i].data[0] == 22 &&
-            g_all[i].data[13] == SSL_HS_SERVER_HELLO)
+        if (g_all[i].from == !victimIsServer && g_all[i].data[0] == 22 &&
+            g_all[i].data[13] == (victimIsServer ?
+                SSL_HS_CLIENT_KEY_EXCHANGE : SSL_HS_SERVER_HELLO))
         {
-            oldFlight = i;
+            old = i;
         }
     }
-    printf("handshake complete; datagram #%d is the server's ServerHello "
-        "flight (epoch 0)\n", oldFlight);
+    printf("handshake complete; datagram #%d is the %s's %s flight "
+        "(epoch 0)\n", old, epname(P),
+        victimIsServer ? "ClientKeyExchange" : "ServerHello");
 
-    /* one-way protocol: only the client sends application data */
-    ep_app_send(&C, m1);
-    n = ep_flush(&C, ids, 64);
-    d1 = &g_all[ids[0]];
-    ep_deliver(&S, d1);
-    printf("client -> server record 1:\n");
-    dump_dgram("  ", d1);
-    printf("  delivered to the server application %d time(s)\n",
-        ep_count_app(&S, m1));
+    /* one-way protocol: only the victim sends application data */
+    ep_app_send(V, m1);
+    n = ep_flush(V, ids, 64);
+    ep_deliver(P, &g_all[ids[0]]);
+    printf("%s -> %s record 1:\n", epname(V), epname(P));
+    dump_dgram("  ", &g_all[ids[0]]);
+    printf("  delivered to the %s application %d time(s)\n", epname(P),
+        ep_count_app(P, m1));
 
-    /* the network re-delivers the old ServerHello flight to the client */
-    for (;; )
+    /* the network re-delivers the old datagram to the victim */
+    prevEpoch = (V->ssl->epoch[0] << 8) | V->ssl->epoch[1];
+    for (replays = 1; replays <= MAXREPLAY; replays++)
     {
-        int32 rc = ep_deliver(&C, &g_all[oldFlight]);
-        replays++;
+        int32 rc = ep_deliver(V, &g_all[old]);
         if (rc == MATRIXSSL_REQUEST_SEND)
         {
-            n = ep_flush(&C, ids, 64);       /* client re-sends CCS+Finished */
+            n = ep_flush(V, ids, 64);     /* victim re-sends CCS+Finished? */
+            if (n > 0)
+            {
+                resends++;
+            }
             for (i = 0; i < n; i++)
             {
-                ep_deliver(&S, &g_all[ids[i]]);
+                ep_deliver(P, &g_all[ids[i]]);
+                /* keep the history small: these are not needed again */
+                free(g_all[ids[i]].data);
+                g_all[ids[i]].data = NULL;
             }
+            g_nall -= n;
         }
-        epoch = (C.ssl->epoch[0] << 8) | C.ssl->epoch[1];
-        if (replays == 1 || replays == 254 || replays == 255 ||
-            replays == 256 || replays == 509)
+        epoch = (V->ssl->epoch[0] << 8) | V->ssl->epoch[1];
+        if (replays == 1 || replays == 255 || replays == 256 ||
+            replays == 509 || replays == 510 || replays == 65534 ||
+            replays == 65535 || replays == MAXREPLAY)
         {
-            printf("  after %3d replays: client write epoch = %d\n", replays,
-                epoch);
+            printf("  after %5d replays: %s write epoch = %d (%d re-sent "
+                "flights)\n", replays, epname(V), epoch, resends);
         }
         if (ep_dead(&C) || ep_dead(&S))
         {
-            printf("a side died?\n");
-            return 2;
+            printf("VIOLATION: a side died after %d replays (client fatal "
+                "%d/%d, server fatal %d/%d)\n", replays, C.fatal, C.fatalRc,
+                S.fatal, S.fatalRc);
+            return 1;
         }
-        if (epoch == 0 || replays > 70000)
+        if (epoch < prevEpoch)
         {
+            wrappedAt = replays;
             break;
         }
+        prevEpoch = epoch;
     }
-    printf("after %d replays of ONE old datagram: client write epoch = %d, "
-        "server expects epoch %d\n", replays, epoch,
-        (S.ssl->expectedEpoch[0] << 8) | S.ssl->expectedEpoch[1]);
-
-    /* (1) data no longer flows */
-    ep_app_send(&C, m2);
-    n = ep_flush(&C, ids, 64);
-    d1 = &g_all[ids[0]];
-    printf("client -> server record 2 (\"%s\"):\n", m2);
-    dump_dgram("  ", d1);
-    ep_deliver(&S, d1);
-    printf("  delivered to the server application %d time(s)\n",
-        ep_count_app(&S, m2));
-    if (epoch == 0 && ep_count_app(&S, m2) == 0)
+    epoch = (V->ssl->epoch[0] << 8) | V->ssl->epoch[1];
+    if (wrappedAt > 0)
     {
-        printf("VIOLATION: replayed handshake datagrams wrapped the client's "
-            "write epoch to 0 after %d replays; the established session no "
-            "longer delivers application data\n", replays);
+        printf("after %d replays of ONE old datagram the %s write epoch went "
+            "BACK to %d; the %s expects epoch %d\n", wrappedAt, epname(V),
+            epoch, epname(P),
+            (P->ssl->expectedEpoch[0] << 8) | P->ssl->expectedEpoch[1]);
+    }
+    else
+    {
+        printf("%d replays: the write epoch never went back (now %d), %d "
+            "flights were re-sent\n", MAXREPLAY, epoch, resends);
+    }
+
+    /* (1) does data still flow? */
+    ep_app_send(V, m2);
+    n = ep_flush(V, ids, 64);
+    d2 = &g_all[ids[0]];
+    printf("%s -> %s record 2 (\"%s\"):\n", epname(V), epname(P), m2);
+    dump_dgram("  ", d2);
+    ep_deliver(P, d2);
+    printf("  delivered to the %s application %d time(s)\n", epname(P),
+        ep_count_app(P, m2));
+    if (ep_count_app(P, m2) != 1)
+    {
+        printf("VIOLATION: replayed handshake datagrams wrapped the %s's "
+            "write epoch after %d replays; the established session no "
+            "longer delivers application data\n", epname(V), wrappedAt);
         bad = 1;
     }
 
     /* (2) one more replay of the same old datagram, then the next record */
-    if (ep_deliver(&C, &g_all[oldFlight]) == MATRIXSSL_REQUEST_SEND)
+    if (ep_deliver(V, &g_all[old]) == MATRIXSSL_REQUEST_SEND)
     {
-        n = ep_flush(&C, ids, 64);
-        printf("one more replay; client re-sends:\n");
+        n = ep_flush(V, ids, 64);
+        printf("one more replay; %s re-sends %d datagram(s)\n", epname(V), n);
         for (i = 0; i < n; i++)
         {
             dump_dgram("  ", &g_all[ids[i]]);
         }
     }
-    ep_app_send(&C, m3);
-    n = ep_flush(&C, ids, 64);
-    d2 = &g_all[ids[0]];
-    printf("client -> server record 3 (\"%s\"):\n", m3);
-    dump_dgram("  ", d2);
-    if (d1->len == d2->len && memcmp(d1->data + 3, d2->data + 3, 8) == 0 &&
-        memcmp(d1->data + 13, d2->data + 13, 8) == 0)
+    ep_app_send(V, m3);
+    n = ep_flush(V, ids, 64);
+    d3 = &g_all[ids[0]];
+    printf("%s -> %s record 3 (\"%s\"):\n", epname(V), epname(P), m3);
+    dump_dgram("  ", d3);
+    if (d2->len == d3->len && memcmp(d2->data + 3, d3->data + 3, 8) == 0 &&
+        memcmp(d2->data + 13, d3->data + 13, 8) == 0)
     {
         int len = (int) strlen(m2), same = 1;
         printf("  records 2 and 3 both carry epoch/sequence ");
         for (i = 3; i < 11; i++)
         {
-            printf("%02x", d1->data[i]);
+            printf("%02x", d2->data[i]);
         }
         printf(" and explicit GCM nonce ");
         for (i = 13; i < 21; i++)
         {
-            printf("%02x", d1->data[i]);
+            printf("%02x", d2->data[i]);
         }
-        printf("\n  ct2^ct3 vs pt2^pt3: ");
         for (i = 0; i < len; i++)
         {
-            unsigned char cx = d1->data[21 + i] ^ d2->data[21 + i];
+            unsigned char cx = d2->data[21 + i] ^ d3->data[21 + i];
             unsigned char px = (unsigned char) m2[i] ^ (unsigned char) m3[i];
             if (cx != px)
             {
                 same = 0;
             }
         }
-        printf("%s\n", same ? "IDENTICAL for all bytes" : "differ");
-        if (same)
+        printf("\n  ct2^ct3 vs pt2^pt3: %s\n",
+            same ? "IDENTICAL for all bytes" : "differ");
+        printf("VIOLATION: after the epoch wrap the %s encrypted two "
+            "different plaintexts under the same AES-GCM key and the same "
+            "nonce (same epoch and sequence number)%s\n", epname(V),
+            same ? ": keystream re-use (ct2^ct3 == pt2^pt3)" : "");
+        bad = 1;
+    }
+    if (!bad)
+    {
+        ep_deliver(P, d3);
+        if (ep_count_app(P, m3) != 1)
         {
-            printf("VIOLATION: after the epoch wrap the client encrypted two "
-                "different plaintexts under the same AES-GCM key and the same "
-                "nonce (same epoch and sequence number): keystream re-use "
-                "(ct2^ct3 == pt2^pt3)\n");
+            printf("VIOLATION: record 3 not delivered\n");
+            return 1;
+        }
+        printf("OK: victim=%s: %d replays, write epoch never wrapped (now "
+            "%d), records 2 and 3 use different (epoch,seq) and were each "
+            "delivered once\n", epname(V), MAXREPLAY,
+            (V->ssl->epoch[0] << 8) | V->ssl->epoch[1]);
+    }
+    return bad;
+}
+
+int main(int argc, char **argv)
+{
+    int bad = 0, st, k;
+
+    if (argc > 1 && !strcmp(argv[1], "-v"))
+    {
+        g_verbose = 1;
+    }
+    setvbuf(stdout, NULL, _IONBF, 0);
+    for (k = 0; k < 2; k++)
+    {
+        pid_t pid;
+        printf("\n===== scenario %d: the victim of the replays is the %s "
+            "=====\n", k, k ? "server" : "client");
+        pid = fork();
+        if (pid == 0)
+        {
+            _exit(scenario(k));
+        }
+        waitpid(pid, &st, 0);
+        if (!WIFEXITED(st) || WEXITSTATUS(st) != 0)
+        {
             bad = 1;
         }
     }
